@@ -367,6 +367,31 @@ func avs18Dynamic(m *Machine, w map[string]int) map[string]int {
 	return out
 }
 
+// a third variant: registrations (client chains, tokens with their oracle feeders, token
+// metadata updates), downtime jailing through x/slashing and unjailing before the export
+func init() {
+	base := *worldProps["C18"]
+	base.Name = "C18Reg"
+	w := map[string]int{}
+	for k, v := range base.Gen.Weights {
+		w[k] = v
+	}
+	for k, v := range map[string]int{"regToken": 7, "regChain": 3, "updToken": 3, "msgUnjail": 3, "regOperator": 2} {
+		w[k] = v
+	}
+	base.Gen.Weights = w
+	base.Gen.DowntimePct = 15
+	cfgOf := base.Config
+	base.Config = func(t *rapid.T) sim.Config {
+		cfg := cfgOf(t)
+		cfg.Slashing = &sim.SlashingCfg{Window: 4, MinSigned: "0.5", JailSeconds: 10, FractionDowntime: "0.01"}
+		return cfg
+	}
+	registerWorldProp(&base)
+}
+
+func TestC18Reg(t *testing.T) { runC18(t, "C18Reg", "TestC18Reg") }
+
 func TestC18(t *testing.T) { runC18(t, "C18", "TestC18") }
 
 // the same round trip over histories with further AVSs registered through the precompile and
